@@ -752,7 +752,7 @@ func TestWitnessTimeDriven(t *testing.T) {
 	run("Interval(15ms)", Interval(p), 4, func(k int) time.Duration { return time.Duration(k+1) * p })
 	run("IntervalWithInitial(0, 15ms)", IntervalWithInitial(0, p), 4, func(k int) time.Duration { return time.Duration(k) * p })
 	run("IntervalWithInitial(10ms, 15ms)", IntervalWithInitial(10*time.Millisecond, p), 4, func(k int) time.Duration { return 10*time.Millisecond + time.Duration(k)*p })
-	for round := 0; round < 5; round++ {
-		run("Delay(20ms) over Range(0, 400)", Delay[int64](20*time.Millisecond)(Range(0, 400)), 400, func(k int) time.Duration { return 20 * time.Millisecond })
+	for round := 0; round < 12 && !t.Failed(); round++ {
+		run("Delay(20ms) over Range(0, 1000)", Delay[int64](20*time.Millisecond)(Range(0, 1000)), 1000, func(k int) time.Duration { return 20 * time.Millisecond })
 	}
 }
